@@ -1,2 +1,3 @@
 //! Shared utilities for the correspondence harness.
 pub mod util;
+pub mod paygen;
